@@ -981,7 +981,25 @@ class Evaluator:
         assigned = assigned_names(st.body) - target_names(st.target)
         loopid = next(self.sym_counter)
         elem = self.loop_element(it, loopid)
-        self.assign(st.target, elem, fr)
+        if isinstance(st.iter, ast.Call) and isinstance(st.iter.func, ast.Name) and st.iter.func.id == "enumerate" and len(st.iter.args) == 1 and not st.iter.keywords:
+            # enumerate over a list built in a parametric loop: the element stays attached to the list (appends are recorded)
+            try:
+                inner = self.eval(st.iter.args[0], fr)
+            except Exception:  # noqa: BLE001
+                inner = None
+            if isinstance(inner, Lst) and (inner.pappends or getattr(inner, "comp", None)):
+                j = Sym("j%d" % loopid, ("loopvar", "int"))
+                elem = ("enum-list", j, self.lib.ListElem(inner, j))
+        if isinstance(elem, tuple) and elem and elem[0] == "enum-list":
+            _tag, j, le = elem
+            if isinstance(st.target, (ast.Tuple, ast.List)) and len(st.target.elts) == 2:
+                self.assign(st.target.elts[0], j, fr)
+                self.assign(st.target.elts[1], le, fr)
+                elem = j
+            else:
+                raise AnalysisError("enumerate over a parametric list without tuple unpacking")
+        else:
+            self.assign(st.target, elem, fr)
         pre = {}
         for n in assigned:
             try:
@@ -1050,11 +1068,18 @@ class Evaluator:
             return Tup([self.elem_of(a, j) for a in it.args])
         if isinstance(it, App) and it.fn == "enumerate":
             j = Sym("j%d" % loopid, ("loopvar", "int"))
-            return Tup([j, self.elem_of(it.args[0], j)])
+            seq = it.args[0]
+            if isinstance(seq, V) and not isinstance(seq, Tup) and len(it.args) == 1 and not it.kw:
+                # with an explicit index the element is the subscript: `for j, xj in enumerate(x)` reads xj = x[j]
+                return Tup([j, mk_app("getitem", [seq, j])])
+            return Tup([j, self.elem_of(seq, j)])
         j = Sym("j%d" % loopid, ("loopvar", "int"))
         return self.elem_of(it, j)
 
     def elem_of(self, seq, j):
+        if isinstance(seq, Lst) and (seq.pappends or getattr(seq, "comp", None)):
+            # element of a list built in a parametric loop: keeps the list reachable (appends to the element are recorded)
+            return self.lib.ListElem(seq, j)
         if isinstance(seq, V):
             return mk_app("elem", [seq, j])
         return mk_app("elem", [Sym(key_of(seq)), j])
@@ -1589,6 +1614,16 @@ class Evaluator:
             g = gens[i]
             it = self.eval(g.iter, frame)
             items = self.concrete_items(it)
+            if items is None and isinstance(it, Lst) and getattr(it, "comp", None) and not it.items and len(it.comp[0]) == 1 and not it.comp[1]:
+                # iterating over a list built by a parametric comprehension: [h(s) for s in [f(g) for g in G]] = [h(f(g)) for g in G]
+                loopid0, elem0, it0 = it.comp[0][0]
+                param.append((loopid0, elem0, it0))
+                self.assign(g.target, it.comp[2], frame)
+                for cnd in g.ifs:
+                    c = self.truth(self.eval(cnd, frame))
+                    param.append(("if", c))
+                rec(i + 1, frame)
+                return
             if items is None:
                 loopid = next(self.sym_counter)
                 elem = self.loop_element(it, loopid)
